@@ -278,6 +278,9 @@ Inductive case :=
 (* the implementation encoded the value [v] of type [ty] to [b]; [rt] = the
    value has no nil pointers, so decoding must give it back *)
 | CEnc (ty : N) (v : value) (rt : bool) (b : bytes)
+(* the bytes delivered by the reader of rlp.EncodeToReader (what p2p.Send puts on
+   the wire) for the value [v]: one more observation of the same encoding *)
+| CEncR (ty : N) (v : value) (b : bytes)
 (* rlp.DecodeBytes(b, &T): None = error; Some b' = accepted and the decoded
    object re-encodes to b'.  (The decoded value itself is not compared here:
    the implementation's encoder is tied to [encode_t] by the CEnc cases and
@@ -309,6 +312,11 @@ Definition case_ok (t : table) (c : case) : bool :=
       opt_bytes_eqb (encode_t s v) (Some b)
       (* rt = the implementation read the same value back from b *)
       && Bool.eqb rt (opt_value_eqb (decode_t s b) (Some v))
+    end
+  | CEncR ty v b =>
+    match lookup t ty with
+    | None => false
+    | Some s => opt_bytes_eqb (encode_t s v) (Some b)
     end
   | CDec ty b r =>
     match lookup t ty with
